@@ -193,9 +193,17 @@ func isSliceType(v ssa.Value) bool {
 
 // system builds the constraint system in force at an instruction.
 func (tb *TB) system(in ssa.Instruction) *dsys {
+	return tb.buildSystem(tb.FactsAt(in.Block()), in.Block(), true)
+}
+
+// buildSystem: the constraints implied by the given facts plus the axioms about the values of
+// the function. With withPhi, a merge of integers (or of slices, for their lengths) is bounded
+// by whatever bounds each of its incoming values under the facts of its own edge.
+func (tb *TB) buildSystem(facts []Atom, at *ssa.BasicBlock, withPhi bool) *dsys {
 	s := &dsys{}
-	fn := in.Parent()
-	for _, a := range tb.FactsAt(in.Block()) {
+	fn := at.Parent()
+	var phis []*ssa.Phi
+	for _, a := range facts {
 		s.addAtom(a)
 		// strings.HasPrefix(x, "const") holds: x is at least that long
 		if a.Kind == "call" && a.Pol && a.Call != nil && (a.Call.S == "strings.HasPrefix" || a.Call.S == "strings.HasSuffix" || a.Call.S == "bytes.HasPrefix") && len(a.Call.Args) == 2 {
@@ -239,6 +247,12 @@ func (tb *TB) system(in ssa.Instruction) *dsys {
 					s.le("0", n, 0)
 					ds, dc, _ := tb.lenSym(c.Call.Args[1])
 					s.le(n, ds, dc)
+				case "(*bytes.Buffer).Write", "(*bytes.Buffer).WriteString", "(*strings.Builder).Write", "(*strings.Builder).WriteString":
+					// documented: the count is len(p), the error always nil
+					n := sym + ".0"
+					bs, bc, _ := tb.lenSym(c.Call.Args[len(c.Call.Args)-1])
+					s.le(n, bs, bc)
+					s.le(bs, n, -bc)
 				case "strings.LastIndex", "strings.Index", "strings.IndexByte", "strings.IndexRune", "bytes.IndexByte", "bytes.Index":
 					// -1 <= r  and  r + 1 <= len(s) (r < len(s))
 					s.le("0", sym, 1)
@@ -279,6 +293,25 @@ func (tb *TB) system(in ssa.Instruction) *dsys {
 						}
 					}
 				}
+				if c.Op == token.SUB {
+					// K - (x % m) and K - (x & m): within [K-hi, K-lo] of the operand's range
+					if k, ok := constInt(c.X); ok {
+						if y, isB := c.Y.(*ssa.BinOp); isB {
+							if m, okm := constInt(y.Y); okm && m > 0 && (y.Op == token.REM || y.Op == token.AND) {
+								lo, hi := int64(0), m
+								if y.Op == token.REM {
+									hi = m - 1
+									if !isUnsigned(y.X.Type()) {
+										lo = -(m - 1)
+									}
+								}
+								sym, off := linear(tb.Term(c))
+								s.le(sym, "0", k-lo-off) // sym+off <= k-lo
+								s.le("0", sym, off-(k-hi)) // sym+off >= k-hi
+							}
+						}
+					}
+				}
 				if c.Op == token.SHR {
 					if isUnsigned(c.X.Type()) {
 						sym := tb.Term(c).Key()
@@ -309,6 +342,7 @@ func (tb *TB) system(in ssa.Instruction) *dsys {
 					s.le(L, hs, hc)
 				}
 			case *ssa.Phi:
+				phis = append(phis, c)
 				// monotone counters: edges are constants or phi +/- positive constant
 				up, down, okc := true, true, true
 				var consts []int64
@@ -361,10 +395,10 @@ func (tb *TB) system(in ssa.Instruction) *dsys {
 	}
 	// range loops: inside the body 0 <= idx < len(over)
 	for _, l := range rangeLoops(fn) {
-		if l.Index == nil || !l.inLoop(in.Block()) || in.Block() == l.Header {
+		if l.Index == nil || !l.inLoop(at) || at == l.Header {
 			continue
 		}
-		if !(l.Body == in.Block() || l.Body.Dominates(in.Block())) {
+		if !(l.Body == at || l.Body.Dominates(at)) {
 			continue
 		}
 		is, io := linear(tb.Term(l.Index))
@@ -372,7 +406,110 @@ func (tb *TB) system(in ssa.Instruction) *dsys {
 		ls, lc, _ := tb.lenSym(l.Over)
 		s.le(is, ls, lc-1-io)
 	}
+	if withPhi {
+		for _, ph := range phis {
+			tb.phiBounds(s, ph)
+		}
+	}
 	return s
+}
+
+// edgeSystem: the constraints in force when control moves from pred to its k-th successor
+// (without merge axioms, which would recurse).
+func (tb *TB) edgeSystem(pred *ssa.BasicBlock, k int) *dsys {
+	type ek struct {
+		b *ssa.BasicBlock
+		k int
+	}
+	if tb.edgeSys == nil {
+		tb.edgeSys = map[any]*dsys{}
+	}
+	if s, ok := tb.edgeSys[ek{pred, k}]; ok {
+		return s
+	}
+	var facts []Atom
+	if _, isIf := pred.Instrs[len(pred.Instrs)-1].(*ssa.If); isIf {
+		facts = tb.FactsOnEdge(pred, k)
+	} else {
+		facts = tb.FactsAt(pred)
+	}
+	s := tb.buildSystem(facts, pred, false)
+	tb.edgeSys[ek{pred, k}] = s
+	return s
+}
+
+// phiBounds: v = Phi(e1..en). For every incoming value taken as a candidate bound c: if each
+// e_i <= c holds on its own edge then v <= c, and likewise for lower bounds (also against 0).
+// Slices and strings are compared by length.
+func (tb *TB) phiBounds(s *dsys, ph *ssa.Phi) {
+	if len(ph.Edges) < 2 || len(ph.Edges) > 6 {
+		return
+	}
+	type lin struct {
+		sym string
+		off int64
+	}
+	var self lin
+	var edges []lin
+	switch {
+	case isInteger(ph.Type()):
+		sy, off := linear(tb.Term(ph))
+		self = lin{sy, off}
+		for _, e := range ph.Edges {
+			es, eo := linear(tb.Term(e))
+			edges = append(edges, lin{es, eo})
+		}
+	case isSliceType(ph) || isStringType(ph.Type()):
+		sy, off, _ := tb.lenSym(ph)
+		self = lin{sy, off}
+		for _, e := range ph.Edges {
+			es, eo, _ := tb.lenSym(e)
+			edges = append(edges, lin{es, eo})
+		}
+	default:
+		return
+	}
+	blk := ph.Block()
+	var sys []*dsys
+	for i := range ph.Edges {
+		pred := blk.Preds[i]
+		k := 0
+		for j, su := range pred.Succs {
+			if su == blk {
+				k = j
+			}
+		}
+		sys = append(sys, tb.edgeSystem(pred, k))
+	}
+	cands := append([]lin{{"0", 0}}, edges...)
+	seen := map[lin]bool{}
+	for _, c := range cands {
+		if seen[c] || c.sym == self.sym {
+			continue
+		}
+		seen[c] = true
+		upper, lower := true, true
+		for i, e := range edges {
+			// e.sym + e.off <= c.sym + c.off
+			if !(e == c || sys[i].implied(e.sym, c.sym, c.off-e.off)) {
+				upper = false
+			}
+			if !(e == c || sys[i].implied(c.sym, e.sym, e.off-c.off)) {
+				lower = false
+			}
+		}
+		if upper {
+			s.le(self.sym, c.sym, c.off-self.off)
+		}
+		if lower {
+			s.le(c.sym, self.sym, self.off-c.off)
+		}
+	}
+}
+
+func isStringType(t types.Type) bool {
+	b, ok := t.Underlying().(*types.Basic)
+	return ok && b.Info()&types.IsString != 0
 }
 
 func isUnsigned(t types.Type) bool {
@@ -431,8 +568,16 @@ func (p *Program) BoundsOf(fn *ssa.Function) []*BoundOb {
 				}
 			case *ssa.TypeAssert:
 				if !x.CommaOk {
-					out = append(out, &BoundOb{Fn: fn, Instr: in, Kind: "assert", Desc: "assert:" + short(typeString(x.AssertedType)) + ":" + short(tb.Term(x.X).String()),
-						Detail: "type assertion without comma-ok panics if the dynamic type differs"})
+					ob := &BoundOb{Fn: fn, Instr: in, Kind: "assert", Desc: "assert:" + short(typeString(x.AssertedType)) + ":" + short(tb.Term(x.X).String()),
+						Detail: "type assertion without comma-ok panics if the dynamic type differs"}
+					// library contracts: the documented dynamic type of a result
+					if c, isCall := stripConv(x.X).(*ssa.Call); isCall {
+						if want, ok := documentedDynamicType[tb.resolvedCalleeName(&c.Call)]; ok && typeString(x.AssertedType) == want {
+							ob.OK, ob.How = true, "documented dynamic type of "+short(tb.resolvedCalleeName(&c.Call))+"'s result"
+							ob.Desc = "assert:" + short(typeString(x.AssertedType)) + ":" + short(tb.resolvedCalleeName(&c.Call)) + "()"
+						}
+					}
+					out = append(out, ob)
 				}
 			case *ssa.BinOp:
 				if (x.Op == token.QUO || x.Op == token.REM) && isInteger(x.X.Type()) {
@@ -460,6 +605,14 @@ func (p *Program) BoundsOf(fn *ssa.Function) []*BoundOb {
 		}
 	}
 	return out
+}
+
+// documentedDynamicType: standard-library methods returning an interface whose dynamic type
+// the documentation fixes.
+var documentedDynamicType = map[string]string{
+	"(crypto/ed25519.PrivateKey).Public": "crypto/ed25519.PublicKey",
+	"(*crypto/rsa.PrivateKey).Public":    "*crypto/rsa.PublicKey",
+	"(*crypto/ecdsa.PrivateKey).Public":  "*crypto/ecdsa.PublicKey",
 }
 
 func isInteger(t types.Type) bool {
@@ -562,6 +715,12 @@ func (tb *TB) sliceOb(x *ssa.Slice) *BoundOb {
 		miss = append(miss, "high <= len")
 	}
 	ob.Detail = "cannot establish " + strings.Join(miss, ", ") + " for " + short(tb.Term(x).String())
+	if os.Getenv("AGECHECK_DEBUG_BOUNDS") != "" {
+		fmt.Fprintf(os.Stderr, "bounds: %s\n  low=%s%+d high=%s%+d limit=%s%+d\n", ob.Desc, los, loo, his, hio, limitS, limitC)
+		for _, c := range s.cons {
+			fmt.Fprintf(os.Stderr, "    %s - %s <= %d\n", c.x, c.y, c.c)
+		}
+	}
 	return ob
 }
 
